@@ -1,7 +1,7 @@
 (* Properties_C11.v — C11 "regular-expression rewrites accept exactly the same language".
    Only statements closed by [exact]; see Proofs_Regex*.v.  Naming: _partial = holds under the stated guard,
    _refuted = the unguarded statement is false, with a concrete witness. *)
-From GC Require Import Base Model_Regex Model_RegexSimplify Proofs_Regex Proofs_RegexRules Proofs_RegexSimplify.
+From GC Require Import Base Model_Regex Model_RegexSimplify Proofs_Regex Proofs_RegexRules Proofs_RegexSimplify Proofs_RegexWalk.
 
 (* observational equivalence gives the same FindStringSubmatchIndex vector on every subject *)
 Theorem C11_equiv_same_matches : forall a b n, req a b -> forall s, go_vec n (find a s) = go_vec n (find b s).
@@ -92,10 +92,30 @@ Theorem C11_norm_sound : forall e, req (norm e) e.
 Proof. exact (norm_sound). Qed.
 Print Assumptions C11_norm_sound.
 
-(* one pass of the simplifier, tree level; hypothesis = the decidable certificate, evaluated by the kernel on every case of the tie *)
-Theorem C11_simplify_sound_partial : forall e, certified e = true -> exists a b n names, den_top e = Some (a, n, names) /\ den_top (simp_ast e) = Some (b, n, names) /\ req a b /\ forall subject, find_go e subject = find_go (simp_ast e) subject.
-Proof. exact (simplify_sound_certified). Qed.
+(* One pass of the CURRENT simplifier (after the fix commits), tree level, by induction over the walker:
+   for every tree of the capture-free, flag-free fragment (in_fragment: the state-free elaboration succeeds)
+   that avoids the guards (avoids_defects: decidable, syntactic, mirrors the walker), the emitted tree has the
+   same groups (none) and is observationally equivalent: same FindStringSubmatchIndex on every subject. *)
+Theorem C11_simplify_sound_partial : forall e, in_fragment e = true -> avoids_defects e = true ->
+  exists x y, den_top e = Some (x, 0, []) /\ den_top (simp_ast e) = Some (y, 0, []) /\ req y x /\
+              forall subject, find_go (simp_ast e) subject = find_go e subject.
+Proof. exact simplify_sound_fragment. Qed.
 Print Assumptions C11_simplify_sound_partial.
+
+(* the state-free elaboration used by in_fragment agrees with the elaboration tied to Go's regexp *)
+Theorem C11_fragment_elaboration_agrees : forall e x st, d_fl st = flags0 -> sden e = Some x -> den e st = Some (x, st).
+Proof. exact sden_den. Qed.
+Print Assumptions C11_fragment_elaboration_agrees.
+
+Example C11_fragment_satisfiable :
+  in_fragment doc_example2 = true /\ avoids_defects doc_example2 = true /\ simp_text doc_example2 = "(?:[abc]) {3}[a-z]+".
+Proof. exact doc_example_fragment. Qed.
+Print Assumptions C11_fragment_satisfiable.
+
+(* one pass of the simplifier, tree level; hypothesis = the decidable certificate, evaluated by the kernel on every case of the tie *)
+Theorem C11_simplify_sound_certified_partial : forall e, certified e = true -> exists a b n names, den_top e = Some (a, n, names) /\ den_top (simp_ast e) = Some (b, n, names) /\ req a b /\ forall subject, find_go e subject = find_go (simp_ast e) subject.
+Proof. exact (simplify_sound_certified). Qed.
+Print Assumptions C11_simplify_sound_certified_partial.
 
 (* used by the tie to chain: original tree ~ simp_ast ~ tree of the emitted text ~ ... ~ tree of the final rewrite *)
 Theorem C11_same_meaning_sound : forall e1 e2, same_meaning e1 e2 = true -> exists a b n names, den_top e1 = Some (a, n, names) /\ den_top e2 = Some (b, n, names) /\ req a b /\ forall subject, find_go e1 subject = find_go e2 subject.
